@@ -237,6 +237,11 @@ class StmtMixin:
         c0 = c.ty[4:] if c.ty and c.ty.startswith("ref:") else None
         if c0 in self.src.classes and self.src.find_method(c0, "__setitem__"):
             kind = c0
+        if kind in (None, "list", "dict") and c0 is None and c.e is not None:
+            for k0 in ("ListProxy", "DictProxy"):       # a value the path condition knows to be a typed list / dict
+                if o.entails(st, o.is_type(c.e, "ref:" + k0), timeout=5000):
+                    kind, c = k0, SV(c.e, "ref:" + k0)
+                    break
         r = o.r(c)
         if kind == "dict":
             st = st.clone()
